@@ -30,6 +30,21 @@ Hardening pass (HARDENING.md classes A-D):
      switch: the precision-32 run of a map / synthesis comes immediately before the float64 run on the same (n, dx);
   D  1xN, Nx1, 2xN, 3x200 ... maps (psd contract; band laws where the window is not degenerate), dx over nine decades
      in the thorough tier.
+
+Hardening pass 2 (HARDENING2.md classes E, F):
+  E  `psd_forms` / `synth_forms`: the table of forms the current tree accepts as the same input is the comment above W_KINDS.  Window
+     ARRAYS of dtype bool, uint8, uint16, int8, int16, int32, int64, float32 (integer-valued, each square fits the window's dtype while
+     the SUM of squares exceeds it for the 8 / 16-bit kinds), C / F / strided, by keyword or positionally, under float64 and float32 heights,
+     are judged by the psd() contract (Parseval / alignment, keys `.../window=array:<kind>`) and against the float64 window; window names in
+     any letter case, None vs omitted, all-keyword call; heights of dtype int8 .. int64, uint8 / uint16, float16, float32 with named /
+     user / automatic windows; dx as numpy float64 / float32 / int32 / int64 / python int / 0-d array (function and Interferogram method);
+     bandlimited_rms edges as numpy scalars / 0-d arrays / float32, positional, periods positional, F-ordered / strided r and psd, method
+     positional / keyword / periods; synthesis with mask arrays of five dtype kinds, rms / size / model parameters in six scalar forms,
+     samples as numpy int, psd_fcn omitted / partial / lambda, all-positional, render_from_psd mask omitted / array — same random state, same
+     surface, requested RMS.  A form finding is recorded only when the psd() contract has not already refuted that call.
+  F  vp/foreign.py (shifted matrix-DFT / chirp-Z propagations, render_synthetic_surface at dx = 1, 0.37, 12.5, in-place edits of the
+     vectors forward_ft_unit / make_xy_grid / fftrange handed out, Interferogram.latcal / recenter / pad, precision 32) runs on the same
+     axis lengths before one enumerated map in four, half of the form shapes, one history in six and one synthesis in five.
 """
 import contextlib
 
@@ -37,6 +52,7 @@ import numpy as np
 
 from ..contracts import attach, detach_all, quiet
 from ..core import parity
+from ..foreign import foreign_traffic
 
 RULE = ('height maps by class: every pairing of axis lengths from a size list (all four parity classes, square and '
         'non-square, smallest first), extreme aspect ratios (1xN, Nx1, 2xN, 3x200 ...) plus seeded random shapes; dx log-uniform in '
@@ -47,7 +63,10 @@ RULE = ('height maps by class: every pairing of axis lengths from a size list (a
         'float64 data}, the precision-32 run of a map immediately before its float64 run; band partitions of 2-5 bands with edges at '
         'midpoints between distinct sample radii; edges given as frequencies, periods, one-sided; histories on one Interferogram = '
         'seeded random sequences of 1..6 (thorough 12) mutators out of 13, each followed by psd() / bandlimited_rms(); synthesis: '
-        'samples 3.. both parities x {abc, ab} model x mask class {none, circle-string, circular array, random array}. A map is '
+        'samples 3.. both parities x {abc, ab} model x mask class {none, circle-string, circular array, random array}; '
+        'argument forms (class E): window-array / height dtype kinds, window names, dx / band-edge / mask / scalar forms on a fixed list of '
+        'shapes of every parity class (4x5 .. 40x33, thorough up to 100x7 / 81x80), each against the canonical float64 / python-float call; '
+        'foreign-traffic preludes (class F) on the same axis lengths before a fixed share of the maps / histories / syntheses. A map is '
         'non-trivial when it is non-constant with >= 2 non-zero samples; distinct = distinct descriptor (workload, shape, dx, window '
         'class, content seed, layout, dtype, precision, parameters / full op list)')
 ASSUMPTIONS = ['"the window actually used" is what prysm.interferogram.make_window returns for the same (signal, dx, window) '
@@ -65,11 +84,16 @@ ASSUMPTIONS = ['"the window actually used" is what prysm.interferogram.make_wind
                '1e-3 (Parseval, alignment, band laws), 1e-4 (synthesis RMS); band edges then keep 1e-4 of the largest radius away from '
                'every sample radius',
                'a map whose window (as make_window yields it) is not finite or has zero energy (1xN / 2xN with the automatic or Welch '
-               'window) is excluded and counted']
+               'window) is excluded and counted',
+               'the set of argument forms treated as the same mathematical input was fixed from the current tree (/repo @ faa8443, table in the '
+               'module above W_KINDS): list / tuple / complex / float16 windows, list heights, list masks (silently ignored today) and '
+               'narrow-integer heights times narrow-integer windows are out of domain; integer windows keep every w^2 inside their own dtype',
+               'render_synthetic_surface is deterministic given numpy.random\'s state (seeded per call, restored afterwards)']
 REQUIRED = ['psd.parseval', 'psd.axes', 'psd.alignment(reference-dft)', 'psd.tone-bins', 'blrms.returns', 'blrms.additivity',
             'blrms.monotone', 'blrms.full-band', 'blrms.period-interface', 'synth.rms',
             'psd.repeat-call', 'blrms.repeat-call', 'history.Interferogram.psd', 'history.Interferogram.bandlimited_rms',
-            'history.synth-then-psd', 'precision32.psd', 'precision32.synth']
+            'history.synth-then-psd', 'precision32.psd', 'precision32.synth',
+            'forms.psd', 'forms.bandlimited_rms', 'forms.synth']
 UNREACHABLE = ['numpy 1.x runtime half of the configuration quantifier: only numpy 2.5.3 is installed and nothing can be fetched, so '
                'neither the behaviour of bandlimited_rms on a real numpy 1.x nor the numpy-1.x fallback branch of the proposed '
                'trapz->trapezoid repair is exercised by this check (the fallback was exercised once by hand with numpy.trapezoid '
@@ -596,6 +620,274 @@ def _synth(ctx, samples, model, mclass, seed, prec):
                               f'{form}(rms={rho:.6g}) has RMS {got:.6g} over its {v.size} valid samples', desc, form=form, got=got)
 
 
+
+# ------------------------------------------------------------------------------------------ class E: argument forms
+# Forms the CURRENT tree (/repo @ faa8443) accepts and treats as the same mathematical input (established by calling each routine with
+# every candidate form and comparing with the canonical form — float64 ndarrays, python float scalars, keyword `window=`):
+#   psd window ARRAY of dtype bool, uint8, uint16, int8, int16, int32, int64, float32, float64 holding the same values (each w^2 must fit
+#       the window's own dtype: that is what `window**2` needs today; the SUM of squares may exceed it), C- or F-ordered or a strided view;
+#       a window given as list / tuple of lists RAISES TypeError today and a complex window raises (out of domain, counted);
+#       float16 windows lose their energy sum to float16 overflow today (out of domain);
+#   psd window NAME in any letter case ('hann' = 'Hann' = 'HANN' = 'hanning', 'welch' = 'Welch' = 'WELCH'); None == omitted;
+#   psd height of dtype int8, int16, int32, int64, uint8 / uint16 (non-negative values), float16, float32, float64 (same values) with a
+#       float64 / named / automatic window (narrow-integer heights times a narrow-integer window overflow today: out of domain);
+#   dx as python float / int, numpy float64 / float32 / int32 / int64, 0-d array;
+#   bandlimited_rms edges as python / numpy float64 / numpy float32 / 0-d array / int, keyword or positional; r / psd C- or F-ordered;
+#   render_synthetic_surface / render_from_psd: mask ARRAY of dtype bool, uint8, int64, float32, float64 (a mask given as a nested list
+#       is silently ignored today: out of domain); rms / size / model parameters as python float / int, numpy float32 / float64 / int64,
+#       0-d array; samples as int / numpy int64; psd_fcn omitted (= abc_psd) / explicit / functools.partial / lambda.
+W_KINDS = ['bool', 'uint8', 'uint16', 'int8', 'int16', 'int32', 'int64', 'float32']
+H_KINDS = ['int8', 'int16', 'int32', 'int64', 'uint8', 'uint16', 'float16', 'float32']
+DX_FORMS = ['np64', 'np32', 'int', 'npint32', 'npint64', '0d']
+FORM_SHAPES_Q = [(4, 5), (6, 7), (9, 8), (13, 13), (16, 16), (17, 20), (26, 31), (40, 33)]
+FORM_SHAPES_T = FORM_SHAPES_Q + [(5, 4), (7, 7), (8, 8), (12, 21), (21, 12), (32, 32), (33, 33), (3, 64), (64, 3), (48, 64), (63, 50), (64, 64), (2, 40),
+                                 (81, 80), (100, 7)]
+
+
+def int_window(shape, kind, rng):
+    """Integer-valued window whose squares fit `kind` while their SUM exceeds it for the 8 / 16-bit kinds (and 32-bit on larger maps)."""
+    if kind == 'bool':
+        w = (rng.random(shape) > 0.3).astype(float)
+        w.flat[0] = 1
+        return w
+    dt = np.dtype(kind)
+    top = int(np.sqrt(np.iinfo(dt).max)) if dt.kind in 'iu' else 4000
+    top = min(top, 46340)
+    w = rng.integers(0, top + 1, shape).astype(float)
+    w.flat[:2] = top
+    return w
+
+
+def scalar_form(kind, v):
+    if kind == 'int':
+        return int(v)
+    if kind == 'npint32':
+        return np.int32(v)
+    if kind == 'npint64':
+        return np.int64(v)
+    return {'np64': np.float64(v), 'np32': np.float32(v), '0d': np.array(float(v))}.get(kind, float(v))
+
+
+def nviol(ctx):
+    return sum(v['count'] for v in ctx.violations.values())
+
+
+def psd_forms(ctx, shape, seed, prelude=False):
+    from prysm import interferogram as ifg
+    n0, n1 = shape
+    rng = np.random.default_rng([int(seed), 17, n0, n1])
+    h = np.round(lowpass_map(shape, rng) * 30)            # integer-valued heights within the int8 range (|lowpass_map| < 3.3)
+    hpos = h - h.min()
+    base = {'wl': 'forms-psd', 'shape': list(shape), 'seed': int(seed)}
+    if prelude:
+        foreign_traffic(ctx, [n0, n1], heavy=True)
+        base['after'] = 'foreign-traffic'
+
+    def compare(desc, routine, form, got, ref, rt):
+        """`got` (this form) against `ref` (canonical form): recorded only when the psd() contract has not already refuted the call."""
+        ctx.observe('forms.psd')
+        ok = all(np.shape(g) == np.shape(r) for g, r in zip(got, ref))
+        if ok:
+            for g, r, t in zip(got, ref, (rt[0], rt[0], rt[1])):
+                sc = float(np.abs(r).max())
+                if not float(np.abs(np.asarray(g, dtype=float) - np.asarray(r, dtype=float)).max()) <= t * max(sc, 1e-300):
+                    ok = False
+        if not ok:
+            ctx.violation(f'C13/{routine}/form:{form}/differs-from-canonical-form',
+                          f'{routine} with the same input given as {form} differs from the canonical form (float64 arrays, python float dx)', desc)
+
+    # ---- window array dtype kinds
+    for dxv in ([1.0, 0.37, 12.5][(n0 + n1) % 3],):
+        for kind in W_KINDS:
+            w = int_window(shape, kind, rng)
+            desc = dict(base, form=f'window={kind}-array', dx=dxv, **{'class': f'forms-psd:window={kind}|{shape_label(shape)}'})
+            ctx.case(desc)
+            for hk, hh in (('float64', h.astype(float)), ('float32', h.astype('float32'))) if kind != 'float32' else (('float64', h.astype(float)),):
+                CUR['desc'], CUR['wclass'] = desc, f'array:{kind}'
+                try:
+                    with ctx.guard(f'C13/psd/form:window={kind}-array', desc):
+                        ref = ifg.psd(hh, dxv, window=w.copy())
+                        n_before = nviol(ctx)
+                        wk = w.astype(kind)
+                        lay = ['C', 'F', 'strided'][(n0 + len(kind)) % 3]
+                        got = ifg.psd(hh, dxv, window=relayout(wk, lay)) if (n1 + len(kind)) % 2 else ifg.psd(hh, dxv, relayout(wk, lay))
+                        if nviol(ctx) == n_before:
+                            lowp = kind == 'float32' or hk == 'float32'
+                            compare(desc, 'psd', f'window={kind}-array', got, ref, (1e-12, 1e-4 if lowp else 1e-12))
+                finally:
+                    CUR['desc'], CUR['wclass'] = None, '?'
+        # ---- window names / None / omitted
+        desc = dict(base, form='window-name', dx=dxv, **{'class': f'forms-psd:window-name|{shape_label(shape)}'})
+        ctx.case(desc)
+        hf = h.astype(float)
+        CUR['desc'] = desc
+        try:
+            with ctx.guard('C13/psd/form:window-name', desc):
+                for canon, others in (('hann', ('Hann', 'HANN', 'hanning', 'Hanning')), ('welch', ('Welch', 'WELCH'))):
+                    CUR['wclass'] = canon
+                    ref = ifg.psd(hf, dxv, window=canon)
+                    if not np.isfinite(ref[2]).all():
+                        ctx.skip('forms: degenerate named window for this shape')
+                        continue
+                    for nm in others:
+                        compare(desc, 'psd', f'window-name={nm}', ifg.psd(hf, dxv, window=nm), ref, (0, 0))
+                CUR['wclass'] = 'auto'
+                ref = ifg.psd(hf, dxv)
+                if np.isfinite(ref[2]).all():
+                    compare(desc, 'psd', 'window=None-explicit', ifg.psd(hf, dxv, window=None), ref, (0, 0))
+                    compare(desc, 'psd', 'window=None-positional', ifg.psd(hf, dxv, None), ref, (0, 0))
+                    compare(desc, 'psd', 'all-keywords', ifg.psd(height=hf, dx=dxv, window=None), ref, (0, 0))
+        finally:
+            CUR['desc'], CUR['wclass'] = None, '?'
+        # ---- height dtype kinds
+        wu = rng.random(shape) + 0.25
+        for kind in H_KINDS:
+            src = hpos if kind.startswith('u') else h
+            desc = dict(base, form=f'height={kind}', dx=dxv, **{'class': f'forms-psd:height={kind}|{shape_label(shape)}'})
+            ctx.case(desc)
+            for wc, warg in (('hann', 'hann'), ('user', wu), ('auto', None)):
+                CUR['desc'], CUR['wclass'] = desc, wc
+                try:
+                    with ctx.guard(f'C13/psd/form:height={kind}', desc):
+                        ref = ifg.psd(src.astype(float), dxv, window=warg)
+                        if not np.isfinite(ref[2]).all():
+                            ctx.skip('forms: degenerate window for this shape')
+                            continue
+                        n_before = nviol(ctx)
+                        got = ifg.psd(src.astype(kind), dxv, window=warg)
+                        if nviol(ctx) == n_before and kind != 'float16':      # float16 heights: the contract's single-precision regime only
+                            compare(desc, 'psd', f'height={kind}', got, ref, (1e-12, 1e-4 if kind == 'float32' else 1e-12))
+                finally:
+                    CUR['desc'], CUR['wclass'] = None, '?'
+        # ---- dx forms
+        for dxf in DX_FORMS:
+            dxo = scalar_form(dxf, 2.0 if 'int' in dxf else dxv)
+            desc = dict(base, form=f'dx={dxf}', dx=float(dxo), **{'class': f'forms-psd:dx={dxf}|{shape_label(shape)}'})
+            ctx.case(desc)
+            CUR['desc'], CUR['wclass'] = desc, 'hann'
+            try:
+                with ctx.guard(f'C13/psd/form:dx={dxf}', desc):
+                    ref = ifg.psd(hf, float(dxo), window='hann')
+                    if not np.isfinite(ref[2]).all():
+                        continue
+                    n_before = nviol(ctx)
+                    got = ifg.psd(hf, dxo, window='hann')
+                    if nviol(ctx) == n_before:
+                        compare(desc, 'psd', f'dx={dxf}', got, ref, (1e-4, 1e-4) if dxf == 'np32' else (1e-12, 1e-12))
+                    o = ifg.Interferogram(hf.copy(), dx=dxo)
+                    pr = ifg.psd(hf, float(dxo))
+                    if np.isfinite(pr[2]).all():
+                        CUR['wclass'] = 'auto'
+                        p = o.psd()
+                        compare(desc, 'Interferogram.psd', f'dx={dxf}', (p.x, p.y, p.data), pr, (1e-4, 1e-4) if dxf == 'np32' else (1e-12, 1e-12))
+            finally:
+                CUR['desc'], CUR['wclass'] = None, '?'
+
+    # ---- bandlimited_rms forms (one r / psd pair, edges between sample radii)
+    dxv = 0.37
+    CUR['desc'], CUR['wclass'] = dict(base, form='blrms'), 'hann'
+    try:
+        with quiet():
+            ux, uy, P = ifg.psd(hf, dxv, window='hann')
+    finally:
+        CUR['desc'], CUR['wclass'] = None, '?'
+    if np.isfinite(P).all() and float(P.max()) > 0:
+        r = np.hypot(ux, uy)
+        rs = np.unique(r.ravel())
+        mids = ((rs[:-1] + rs[1:]) / 2)[np.diff(rs) > 1e-4 * float(r.max())]
+        if mids.size >= 4:
+            a, b = float(mids[mids.size // 4]), float(mids[(3 * mids.size) // 4])
+            desc = dict(base, form='blrms', dx=dxv, a=a, b=b, **{'class': f'forms-blrms|{shape_label(shape)}'})
+            ctx.case(desc)
+            with ctx.guard('C13/bandlimited_rms/form', desc):
+                reff = call_blrms(desc, 'function', ifg.bandlimited_rms, r=r, psd=P, flow=a, fhigh=b)
+                itf = ifg.Interferogram(hf.copy(), dx=dxv)
+                calls = {
+                    'edges=np64': lambda: ifg.bandlimited_rms(r, P, flow=np.float64(a), fhigh=np.float64(b)),
+                    'edges=0d': lambda: ifg.bandlimited_rms(r, P, flow=np.array(a), fhigh=np.array(b)),
+                    'edges=np32': lambda: ifg.bandlimited_rms(r, P, flow=np.float32(a), fhigh=np.float32(b)),
+                    'positional': lambda: ifg.bandlimited_rms(r, P, None, None, a, b),
+                    'periods-positional': lambda: ifg.bandlimited_rms(r, P, 1 / b, 1 / a),
+                    'arrays=F-order': lambda: ifg.bandlimited_rms(np.asfortranarray(r), np.asfortranarray(P), flow=a, fhigh=b),
+                    'arrays=strided': lambda: ifg.bandlimited_rms(relayout(r, 'strided'), relayout(P, 'strided'), flow=a, fhigh=b),
+                    'explicit-None-periods': lambda: ifg.bandlimited_rms(r=r, psd=P, wllow=None, wlhigh=None, flow=a, fhigh=b),
+                }
+                refm = call_blrms(desc, 'method', lambda **kw: itf.bandlimited_rms(flow=a, fhigh=b))
+                calls['method-positional'] = lambda: itf.bandlimited_rms(None, None, a, b)
+                calls['method-keyword-np64'] = lambda: itf.bandlimited_rms(wllow=None, wlhigh=None, flow=np.float64(a), fhigh=np.array(b))
+                calls['method-periods'] = lambda: itf.bandlimited_rms(1 / b, 1 / a)
+                for form, fn in calls.items():
+                    got = call_blrms(desc, 'function', lambda **kw: fn())
+                    ctx.observe('forms.bandlimited_rms')
+                    ref = refm if form.startswith('method') else reff
+                    # an edge rounded to float32 may move across a sample radius only if it lies within 1e-7 of one: mids keep 1e-4 away
+                    if not abs(got - ref) <= (2e-10 if form != 'edges=np32' else 1e-4) * max(ref, 1e-300):
+                        ctx.violation(f'C13/bandlimited_rms/form:{form}/differs-from-canonical-form',
+                                      f'bandlimited_rms with the band given as {form} yields {got:.12g}, the canonical call {ref:.12g}', desc)
+
+
+SYNTH_MASK_KINDS = ['bool', 'uint8', 'int64', 'float32', 'float64']
+
+
+def synth_forms(ctx, samples, seed):
+    import functools
+    from prysm import interferogram as ifg
+    rng = np.random.default_rng([int(seed), 19, samples])
+    i, j = np.indices((samples, samples))
+    mask = np.hypot(i - samples // 2, j - samples // 2) <= samples / 2 - 0.5
+    mask[samples // 2, samples // 2] = True
+    rho, size = 2.0, 12.0
+    kw = {'a': 3.0, 'b': 0.25, 'c': 2.0}
+    base = {'wl': 'forms-synth', 'samples': samples, 'seed': int(seed)}
+    s0 = int(rng.integers(0, 2 ** 31 - 1))
+
+    def render(**k):
+        np.random.seed(s0)
+        return ifg.render_synthetic_surface(**k)[2]
+
+    def judge(desc, form, z, zref):
+        ctx.observe('forms.synth')
+        v = z[np.isfinite(z)]
+        got = float(np.sqrt((v.astype(float) ** 2).sum() / max(v.size, 1)))
+        if v.size == 0 or not abs(got - rho) <= 1e-10 * rho:
+            ctx.violation(f'C13/synthesis/form:{form}/rms-not-as-requested', f'render_synthetic_surface with {form}: RMS {got:.6g} over the valid samples, '
+                          f'requested {rho}', desc)
+        elif not (np.shape(z) == np.shape(zref) and np.array_equal(np.isnan(z), np.isnan(zref))
+                  and float(np.abs(np.nan_to_num(z) - np.nan_to_num(zref)).max()) <= 1e-9 * rho):
+            ctx.violation(f'C13/synthesis/form:{form}/differs-from-canonical-form', f'render_synthetic_surface with {form} and the same random state gives '
+                          'another surface than the canonical call', desc)
+
+    desc = dict(base, **{'class': f'forms-synth:{parity(samples)}'})
+    ctx.case(desc)
+    with ctx.guard('C13/synthesis/form', desc):
+        zm = render(size=size, samples=samples, rms=rho, mask=mask.copy(), psd_fcn=ifg.abc_psd, **kw)
+        for kind in SYNTH_MASK_KINDS:
+            judge(desc, f'mask={kind}-array', render(size=size, samples=samples, rms=rho, mask=mask.astype(kind), psd_fcn=ifg.abc_psd, **kw), zm)
+        z0 = render(size=size, samples=samples, rms=rho, mask=None, psd_fcn=ifg.abc_psd, **kw)
+        for sf in ('int', 'np32', 'np64', 'npint64', '0d'):
+            judge(desc, f'rms={sf}', render(size=size, samples=samples, rms=scalar_form(sf, rho), mask=None, psd_fcn=ifg.abc_psd, **kw), z0)
+            if sf != 'np32':
+                judge(desc, f'size={sf}', render(size=scalar_form(sf, size), samples=samples, rms=rho, mask=None, psd_fcn=ifg.abc_psd, **kw), z0)
+                judge(desc, f'model-parameters={sf}', render(size=size, samples=samples, rms=rho, psd_fcn=ifg.abc_psd,
+                                                             a=scalar_form(sf, 3.0), b=0.25, c=scalar_form(sf, 2.0)), z0)
+        judge(desc, 'samples=npint64', render(size=size, samples=np.int64(samples), rms=rho, psd_fcn=ifg.abc_psd, **kw), z0)
+        judge(desc, 'psd_fcn=omitted', render(size=size, samples=samples, rms=rho, **kw), z0)
+        judge(desc, 'mask=omitted', render(size=size, samples=samples, rms=rho, psd_fcn=ifg.abc_psd, **kw), z0)
+        judge(desc, 'positional', render_positional(ifg, s0, size, samples, rho, kw), z0)
+        judge(desc, 'psd_fcn=partial', render(size=size, samples=samples, rms=rho, mask=None, psd_fcn=functools.partial(ifg.abc_psd, **kw)), z0)
+        judge(desc, 'psd_fcn=lambda', render(size=size, samples=samples, rms=rho, mask=None, psd_fcn=lambda nu: ifg.abc_psd(nu, 3.0, 0.25, 2.0)), z0)
+        np.random.seed(s0)
+        zc = ifg.Interferogram.render_from_psd(size, samples, rms=rho, mask='circle', psd_fcn=ifg.abc_psd, **kw).data
+        np.random.seed(s0)
+        judge(desc, 'render_from_psd:mask=omitted', ifg.Interferogram.render_from_psd(size, samples, rms=rho, psd_fcn=ifg.abc_psd, **kw).data, zc)
+        np.random.seed(s0)
+        judge(desc, 'render_from_psd:mask=array', ifg.Interferogram.render_from_psd(size, samples, rho, mask, **kw).data, zm)
+
+
+def render_positional(ifg, s0, size, samples, rho, kw):
+    np.random.seed(s0)
+    return ifg.render_synthetic_surface(size, samples, rho, None, ifg.abc_psd, **kw)[2]
+
 # ------------------------------------------------------------------------------------------ histories on one Interferogram
 IH_MUT = ['remove_piston', 'remove_tiptilt', 'remove_power', 'latcal', 'strip_latcal', 'pad0', 'fill', 'set-data', 'poke', 'filter',
           'recenter', 'copy', 'crop']
@@ -753,6 +1045,8 @@ def _run(ctx):
         dxc = DXC[(k // 5) % len(DXC)]
         if dxc == 'int' and dx not in (1.0, 2.0):
             dxc = 'np64'
+        if k % 4 == 2:      # class F: the other consumers of forward_ft_unit / fftfreq / make_xy_grid / fftrange run first, same axis lengths
+            foreign_traffic(ctx, [n0, n1], heavy=(k % 8 == 2))
         # class C: the precision-32 run of the same map (same n, same dx object value) comes immediately BEFORE the float64 run
         if k % 3 == 0:
             one_map(ctx, (n0, n1), dx, wclass, seed, content, layout=layout, dtype='float32', prec=32)
@@ -787,7 +1081,7 @@ def _run(ctx):
                     layout=LAYOUTS[(k + q) % len(LAYOUTS)], dtype=['float64', 'float32'][(k + q) % 2] if q % 2 else 'float64',
                     prec=32 if (k + q) % 4 == 0 else 64)
 
-    nrand = ctx.share(ctx.pick(500, 70000))
+    nrand = ctx.share(ctx.pick(500, 140000))
     hi = ctx.pick(40, 104)
     lo_dx, hi_dx = ctx.pick((-3, 2), (-5, 4))
     for q in range(nrand):
@@ -805,8 +1099,20 @@ def _run(ctx):
         if rng.random() < 0.3:
             tone_test(ctx, (n0, n1), dx, seed)
 
+    # class E: argument forms (window / height dtype kinds, names, dx / edge / mask / scalar forms), half of the shapes after a
+    # foreign-traffic prelude (class F) on the same axis lengths
+    fshapes = ctx.pick(FORM_SHAPES_Q, FORM_SHAPES_T)
+    for k, shp in enumerate(fshapes):
+        for rep in range(ctx.pick(1, 16)):
+            if ctx.mine(k + rep):
+                psd_forms(ctx, shp, ctx.seed * 7 + 13 * k + rep, prelude=bool((k + rep) % 2))
+    for k, samples in enumerate(ctx.pick([3, 4, 5, 6, 7, 8, 9, 12, 16, 21], list(range(3, 65)) + [96, 97, 128])):
+        for rep in range(ctx.pick(1, 4)):
+            if ctx.mine(k + rep):
+                synth_forms(ctx, samples, ctx.seed * 11 + k + 1000 * rep)
+
     # class B: histories on one Interferogram
-    nh = ctx.share(ctx.pick(500, 24000))
+    nh = ctx.share(ctx.pick(500, 40000))
     for q in range(nh):
         n0, n1 = (int(v) for v in rng.integers(6, ctx.pick(20, 48), 2))
         if q % 4 == 0:
@@ -815,6 +1121,8 @@ def _run(ctx):
         seed = ctx.subseed(rng)
         L = int(rng.integers(1, ctx.pick(6, 12) + 1))
         lay = LAYOUTS[q % len(LAYOUTS)]
+        if q % 6 == 1:
+            foreign_traffic(ctx, [n0, n1], heavy=False)
         if q % 5 == 0:
             ifg_history(ctx, (n0, n1), dx, seed, L, prec=32, dtype='float32', layout=lay)     # then the same history in float64
         ifg_history(ctx, (n0, n1), dx, seed, L, layout=lay, dtype='float32' if q % 7 == 3 else 'float64')
@@ -830,6 +1138,8 @@ def _run(ctx):
                     k += 1
                     if not _mine_small_first(ctx, k, 16):
                         continue
+                    if (k // ctx.nshards) % 5 == 2:
+                        foreign_traffic(ctx, [samples, samples], heavy=False)
                     if (k // ctx.nshards) % 3 == 0:      # class C: precision-32 synthesis (and its synth -> psd history) on the same grid first
                         synth(ctx, samples, model, mclass, ctx.seed * 7919 + k, prec=32)
                     synth(ctx, samples, model, mclass, ctx.seed * 7919 + k)
